@@ -93,11 +93,23 @@ theorem step_eq (S) (c : Client) (hi : TInv c) (hf : FromStarts S c) (op : COp) 
   | failWrite id => simp [Client.step, calls, pend]
   | setRTO r => simp [Client.step, calls, pend, Client.setRTO]
   | close =>
-    obtain ⟨k1, k2⟩ := close_spec c
     by_cases hc : c.closed = true
-    · simp only [Client.step, k1 hc]; simp [calls]
-    · obtain ⟨_, b2, _, b4, _⟩ := k2 (by simpa using hc)
-      simp only [Client.step]; rw [b4, pend_congr c _ b2]; split <;> simp [calls]
+    · simp only [Client.step, (close_spec c).1 hc]; simp [calls]
+    · have hcf : c.closed = false := by simpa using hc
+      have cs := callbacks_spec S (((c.agent.close).2.2).map (fun e => (e.id, CEv.agentClosed)))
+        { c with closed := true, agent := (c.agent.close).1 } (tinv_congr c _ rfl hi) (fun p hp => hf p hp)
+      have hp : pend h ({ c with closed := true, agent := (c.agent.close).1 } : Client) = pend h c := rfl
+      have e1 := cs.count h
+      simp only [Client.step]
+      unfold Client.close
+      simp only [hcf, Bool.false_eq_true, if_false]
+      generalize (({ c with closed := true, agent := (c.agent.close).1 } : Client).callbacks
+        (((c.agent.close).2.2).map (fun e => (e.id, CEv.agentClosed)))) = r at *
+      split
+      · rw [calls_append]
+        have : calls h [COut.connClose] = 0 := by simp [calls]
+        rw [this]; omega
+      · omega
 
 /-- histories without a `Start` that uses handler `h`: (invocations of h) + (h pending) is conserved exactly -/
 theorem run_eq (ops : List COp) (h : Nat) (hno : startCount h ops = 0) : ∀ (S) (c : Client), TInv c → FromStarts S c →
